@@ -334,7 +334,12 @@ def gen_table(r, max_rows):
     df = pd.DataFrame(rows, columns=["ID", "TIME"])
     if r.random() < 0.3:
         df.index = r.permutation(len(df)) + 7  # caller's index is arbitrary
-    return df, {"n_ids": n_ids, "id_style": style, "flavour": flavour, "rows": len(rows)}
+    categorical = style != "int" and r.random() < 0.15
+    if categorical:
+        # identifiers held as a pandas categorical that also declares individuals absent from the table (a sub-cohort filtered from a bigger table)
+        cats = list(dict.fromkeys(df["ID"])) + [f"ghost-{k}" for k in range(int(r.integers(1, 3)))]
+        df["ID"] = pd.Categorical(df["ID"], categories=[cats[k] for k in r.permutation(len(cats))])
+    return df, {"n_ids": n_ids, "id_style": style + ("-categorical" if categorical else ""), "flavour": flavour, "rows": len(rows)}
 
 
 INADMISSIBLE_RANDOM = [
